@@ -339,7 +339,7 @@ def _worker(chunk):
 
 def run(rec, tier, seed):
     if tier == 'quick':
-        doms = [{'length': 24, 'dr': 0.1}, {'length': 50, 'dk': 0.05}]
+        doms = [{'length': 24, 'dr': 0.1}, {'length': 50, 'dk': 0.05}, {'length': 3, 'dr': 0.2}, {'length': 127, 'dk': 0.1}]
     else:
         doms = [{'length': 24, 'dr': 0.1}, {'length': 50, 'dk': 0.05}, {'length': 3, 'dr': 0.2}, {'length': 100, 'dr': 0.1},
                 {'length': 127, 'dk': 0.1}, {'length': 256, 'dr': 0.025}]
